@@ -53,7 +53,7 @@ struct Run<'a> {
 
 impl<'a> VdafVisitor for Run<'a> {
     type Out = ();
-    fn visit<T, P>(self, vdaf: Prio3<T, P, 32>)
+    fn visit<T, P>(self, vdaf: Prio3<T, P, 32>, _typ: T)
     where
         T: TypeBridge + 'static,
         T::Field: FieldBig,
